@@ -14,24 +14,77 @@ Qed.
 
 Definition invoked (t: table) (owned: bool) : table := filter (fun kh => owned || h_cap (snd kh)) t.
 
-(* C15 core: handle_packet delivers the packet, unmodified, exactly once to each selected handler in key order *)
-Theorem handle_packet_spec : forall t p owned i,
-  handle_packet t p owned i =
-  (map (fun kh => (fst kh, h_label (snd kh), p)) (invoked t owned), isend_all i (concat (map (fun kh => h_sends (snd kh)) (invoked t owned)))).
+(* what the re-entrant sends of a handler add to the log: each packet addressed to the own address, once to every registered handler in key order *)
+Definition nested_log (own: N) (t: table) (qs: list packet) : list logent :=
+  concat (map (fun q => if p_addr q =? own then leaf_log t q else []) qs).
+(* the whole log of one dispatch: per selected handler (key order) its own entry, then the nested deliveries its sends caused *)
+Definition dispatch_log (own: N) (t: table) (p: packet) (owned: bool) : list logent :=
+  concat (map (fun kh => (fst kh, h_label (snd kh), p) :: nested_log own t (h_sends (snd kh))) (invoked t owned)).
+(* what one dispatch puts on the link: the selected handlers' packets in order, minus the looped-back ones *)
+Definition dispatch_sent (own: N) (t: table) (owned: bool) : list packet :=
+  filter (transmitted own) (concat (map (fun kh => h_sends (snd kh)) (invoked t owned))).
+
+Lemma hbody_go own full : forall qs log i,
+  fold_left (hsend own full) qs (log, i) = (log ++ nested_log own full qs, isend_all i (filter (transmitted own) qs)).
 Proof.
-  induction t as [|[id h] r IH]; intros p owned i; [reflexivity|]. cbn [handle_packet invoked filter snd].
+  induction qs as [|q qs IH]; intros log i; [cbn; rewrite app_nil_r; reflexivity|].
+  cbn [fold_left]. unfold hsend at 2. cbn [fst snd]. rewrite IH. unfold nested_log. cbn [map concat filter].
+  destruct (p_addr q =? own); destruct (transmitted own q); cbn [isend_all app]; rewrite <- ?app_assoc; reflexivity.
+Qed.
+
+Lemma handle_go_spec own full : forall t p owned i,
+  handle_go own full t p owned i =
+  (concat (map (fun kh => (fst kh, h_label (snd kh), p) :: nested_log own full (h_sends (snd kh))) (invoked t owned)),
+   isend_all i (filter (transmitted own) (concat (map (fun kh => h_sends (snd kh)) (invoked t owned))))).
+Proof.
+  induction t as [|[id h] r IH]; intros p owned i; [reflexivity|]. cbn [handle_go invoked filter snd].
   destruct (owned || h_cap h) eqn:E.
-  - rewrite IH. cbn [map concat fst snd]. rewrite isend_all_app. reflexivity.
+  - unfold hbody. rewrite hbody_go. rewrite IH. cbn [map concat fst snd app]. rewrite filter_app, isend_all_app. reflexivity.
   - apply IH.
 Qed.
+
+(* C15 core: handle_packet delivers the packet, unmodified, exactly once to each selected handler in key order;
+   a handler's own-addressed sends are delivered, nested, once to every handler; the rest goes to the link in order *)
+Theorem handle_packet_spec : forall own t p owned i,
+  handle_packet own t p owned i = (dispatch_log own t p owned, isend_all i (dispatch_sent own t owned)).
+Proof. intros. unfold handle_packet. apply handle_go_spec. Qed.
 
 Lemma invoked_owned t : invoked t true = t.
 Proof. unfold invoked. induction t as [|kh r IH]; [reflexivity|]. cbn [filter]. change (true || h_cap (snd kh)) with true. cbv iota. f_equal. exact IH. Qed.
 
-Lemma log_ids_live t p owned i : forall e, In e (fst (handle_packet t p owned i)) -> In (fst (fst e)) (keys t).
+(* without re-entrant sends the log is one entry per selected handler and everything the handlers send is transmitted *)
+Lemma quiet_handler own t qs : forallb (fun q => negb (p_addr q =? own)) qs = true -> nested_log own t qs = [] /\ filter (transmitted own) qs = qs.
 Proof.
-  rewrite handle_packet_spec. cbn [fst]. intros e He. apply in_map_iff in He. destruct He as [kh [<- Hk]]. cbn [fst].
-  apply filter_In in Hk. destruct Hk as [Hk _]. apply in_map. exact Hk.
+  induction qs as [|q qs IH]; intros H; [split; reflexivity|]. cbn [forallb] in H. apply andb_prop in H. destruct H as [Hq Hr].
+  destruct (IH Hr) as [H1 H2]. unfold nested_log in *. cbn [map concat filter].
+  assert (Ht: transmitted own q = true) by (unfold transmitted; rewrite Hq; reflexivity).
+  apply negb_true_iff in Hq. rewrite Hq, Ht, H1, H2. split; reflexivity.
+Qed.
+Lemma quiet_invoked own t owned : quiet own t = true -> quiet own (invoked t owned) = true.
+Proof.
+  unfold quiet, invoked. induction t as [|kh r IH]; intros H; [reflexivity|]. cbn [forallb] in H. apply andb_prop in H. destruct H as [H1 H2].
+  cbn [filter]. destruct (owned || h_cap (snd kh)); [cbn [forallb]; rewrite H1, (IH H2); reflexivity|apply IH, H2].
+Qed.
+Theorem dispatch_quiet own t p owned : quiet own t = true ->
+  dispatch_log own t p owned = map (fun kh => (fst kh, h_label (snd kh), p)) (invoked t owned) /\
+  dispatch_sent own t owned = concat (map (fun kh => h_sends (snd kh)) (invoked t owned)).
+Proof.
+  intros Hq. unfold dispatch_log, dispatch_sent. pose proof (quiet_invoked own t owned Hq) as Hi. clear Hq.
+  assert (G: forall full l, quiet own l = true ->
+             concat (map (fun kh => (fst kh, h_label (snd kh), p) :: nested_log own full (h_sends (snd kh))) l) = map (fun kh => (fst kh, h_label (snd kh), p)) l /\
+             filter (transmitted own) (concat (map (fun kh => h_sends (snd kh)) l)) = concat (map (fun kh => h_sends (snd kh)) l)).
+  { intros full l. induction l as [|kh r IH]; intros H; [split; reflexivity|]. unfold quiet in H. cbn [forallb] in H. apply andb_prop in H. destruct H as [H1 H2].
+    destruct (IH H2) as [I1 I2]. destruct (quiet_handler own full _ H1) as [Q1 Q2]. cbn [map concat]. rewrite Q1, I1, filter_app, Q2, I2. split; reflexivity. }
+  apply G. exact Hi.
+Qed.
+
+Lemma log_ids_live own t p owned i : forall e, In e (fst (handle_packet own t p owned i)) -> In (fst (fst e)) (keys t).
+Proof.
+  rewrite handle_packet_spec. cbn [fst]. unfold dispatch_log. intros e He. apply in_concat in He. destruct He as [l [Hl He]].
+  apply in_map_iff in Hl. destruct Hl as [kh [<- Hk]]. apply filter_In in Hk. destruct Hk as [Hk _].
+  destruct He as [<-|He]; [cbn [fst]; apply in_map; exact Hk|].
+  unfold nested_log in He. apply in_concat in He. destruct He as [l2 [Hl2 He]]. apply in_map_iff in Hl2. destruct Hl2 as [q [<- _]].
+  destruct (p_addr q =? own); [|contradiction]. unfold leaf_log in He. apply in_map_iff in He. destruct He as [kh2 [<- Hk2]]. cbn [fst]. apply in_map. exact Hk2.
 Qed.
 
 (* ---------- C18 ---------- *)
